@@ -373,9 +373,22 @@ func runNativeFuzz(r *Run, s *TSpec, pigeon string) int {
 			m, _ := filepath.Glob(filepath.Join(dir, "testdata", "fuzz", s.Fuzz, "*"))
 			for _, f := range m {
 				b, _ := os.ReadFile(f)
-				r.Logf("native fuzz crasher %s:\n%s\n%s", f, trunc(string(b), 600), lastLines(string(out), 15))
+				// the fuzzer also reports inputs on which a worker was slow or died: only an input
+				// that fails again, by itself, as a plain test within two minutes is a violation (a
+				// time limit hit is inconclusive, never a verdict)
+				cctx, ccancel := context.WithTimeout(context.Background(), 4*time.Minute)
+				conf := exec.CommandContext(cctx, "go", "test", "-tags", "vtool", "-run", "^"+s.Fuzz+"$/^"+filepath.Base(f)+"$", "-timeout", "120s", "-count", "1", ".")
+				conf.Dir = dir
+				conf.Env = env
+				cout, cerr := conf.CombinedOutput()
+				ccancel()
+				if cerr == nil || strings.Contains(string(cout), "test timed out") || !strings.Contains(string(cout), "--- FAIL") {
+					r.Logf("native fuzz: reported input does not fail by itself within the time limit (not a verdict):\n%s\n%s", trunc(string(b), 300), lastLines(string(cout), 6))
+					continue
+				}
+				r.Logf("native fuzz crasher %s:\n%s\n%s", f, trunc(string(b), 600), lastLines(string(cout), 15))
 				r.Violation(map[string]any{"property": s.ID, "engine": "tool", "check_kind": "native_fuzz_crasher", "fuzz_target": s.Fuzz, "corpus_entry": string(b),
-					"diff": lastLines(string(out), 15)})
+					"diff": lastLines(string(cout), 15)})
 			}
 			os.RemoveAll(filepath.Join(dir, "testdata"))
 		} else if err != nil {
